@@ -904,6 +904,17 @@ func verifLenIsHeaderPlusLength(p *PathAttribute) bool {
 //@   claims at-call
 //@   at-call append(buf, uint8(nexthoplen)) requires nexthoplen == mpNHLen(safi, isNexthopIPv6 ? 16*len(nexthopAddrs) : 4*len(nexthopAddrs), len(nexthopAddrs))
 
+// EVPN I-PMSI route (type 9): what the encoder writes is what Len() announces - RD (8) and Ethernet tag (4), then the
+// extended community directly after them - and the decoder knows the route type its own encoder emits
+//@ props C04
+//@ func (*EVPNIPMSIRoute).Serialize
+//@   requires er != nil
+//@   claims at-call
+//@   at-call append(buf, ec...) requires len(buf) == 12
+//@ func getEVPNRouteType
+//@   modifies nothing
+//@   ensures t == EVPN_I_PMSI ==> result1 == nil && typeOf(result0) == (*EVPNIPMSIRoute)
+
 //@ props C12
 // from C12: which Cease subcodes end the session hard (RFC 8538): prefix limit, admin shutdown, peer
 // de-configured, hard reset - and admin reset only when configured so
